@@ -437,6 +437,10 @@ def run(ctx) -> None:
     r3_join(ctx)
     r4_written_bound(ctx, nf)
     r5_collections(ctx, nf)
+    ctx.rule("C07.R6", "the bound a type definition declares survives the extension codec (explicit bound, parameter indices) (shared with C10.R1)", floor=2)
+    from .c10 import r1_bounds_codec
+    with ctx.as_rule(C10_R1="C07.R6"):
+        r1_bounds_codec(ctx, nf)
     from .. import lints
     lints.arm(ctx)
 
